@@ -56,6 +56,8 @@ def cases(tier, seed, rnd):
 
 
 def is_tol(spec):
+    if spec['atom'] == 'chain':
+        return spec['base'] in ('square', 'sumsqr') and any(isinstance(c, float) and abs(c) != 1.0 for c in spec['chain'])
     return spec['atom'] in TOL_ATOMS or (spec['form'] in ('le_scaled', 'obj_scaled') and spec['atom'] in ('square', 'sumsqr')) \
         or (spec.get('base') == 'square' and spec['form'] == 'bcast_scaled')
 
@@ -63,7 +65,7 @@ def is_tol(spec):
 def run_case(case, ses):
     spec = case['spec']
     z3 = z3mod()
-    tower = spec['atom'] in TOWER_ATOMS or spec.get('base') == 'power3'
+    tower = spec['atom'] in TOWER_ATOMS or spec.get('base') in ('power3', 'gmean')
     with quiet():
         cm = Compiled(detgen.desc_from_spec(spec), abstract_towers=tower, front=spec.get('front', 'ro'))
     ses.stats.programs += 1
@@ -103,7 +105,7 @@ def run_case(case, ses):
             vstar = [float(fval(model, v)) for v in vs]
             data = dict(spec=spec, row=row['label'], v=vstar)
             good, info = replay(data, want_info=True)
-            if not good and (spec['atom'] in detgen.EXP_FAMILY or spec.get('base') in ('exp', 'log')):
+            if not good and (spec['atom'] in detgen.EXP_FAMILY or spec.get('base') in ('exp', 'log', 'entropy', 'softplus', 'pexp', 'plog')):
                 # cone-term abstraction: the abstract model need not be a real point (phi is uninterpreted).
                 # Look for a real one: solve the REAL compiled program (ECOS, true exp cone) for random linear
                 # objectives over the user's columns and evaluate the user's constraint there.
@@ -203,7 +205,7 @@ def replay(data, verbose=False, want_info=False):
     user's constraint evaluated directly at its user-variable part is violated."""
     spec = data['spec']
     with quiet():
-        cm = Compiled(detgen.desc_from_spec(spec), abstract_towers=((spec['atom'] in TOWER_ATOMS or spec.get('base') == 'power3') and data['row'] != 'solver-point'), front=spec.get('front', 'ro'))
+        cm = Compiled(detgen.desc_from_spec(spec), abstract_towers=((spec['atom'] in TOWER_ATOMS or spec.get('base') in ('power3', 'gmean')) and data['row'] != 'solver-point'), front=spec.get('front', 'ro'))
     v = data['v']
     info = {}
     rows = cm.rows()
